@@ -1,18 +1,18 @@
-\* quick (the same constants checks/c13.py uses): every input of N = 7 samples over {0, 1}, EVERY partition of it into
-\* process calls of 1..7 frames, delay d = 1..3 frames, feedback gain 0/1, gain 0/1 nested in the feedback path, mix dry/wet.
+\* quick (the same constants checks/c13.py uses): every input of N = 8 samples over {0, 1}, EVERY partition of it into
+\* process calls of 1..8 frames, delay d = 1..3 frames, feedback gain 0/1, gain 0/1 nested in the feedback path, mix dry/wet.
 \* Model of delay.rs as it is (SubFrameFixed = FALSE).
-\* Measured: 352 256 distinct states, depth 12, about 20 s on 4 workers.
+\* Measured: 948 224 distinct states (1 292 288 generated), depth 13, 15 s (idle machine) to 45 s (loaded) on 4 workers.
 \* PropertyHolds = the model satisfies the P_C13 monitor (echo definition, dry identity, silence) in every state; Strict = without
 \* the named known finding; BufferIsLine / OutputSoFar = chunk independence stated on the state.
 \* checks/c13.py additionally runs Ds = {0} (delay shorter than a frame: PropertyHolds holds only through KnownFinding_SubFrameDelay,
 \* W_ZeroDelayPanics must be violated) and the reachability witnesses W_* (each must be violated) with N = 6, Ds = {1, 2}.
 SPECIFICATION Spec
 CONSTANTS
-  N = 7
+  N = 8
   Vals = {0, 1}
   Ds = {1, 2, 3}
   NGs = {0, 1}
-  B = 7
+  B = 8
   InMode = "all"
   SubFrameFixed = FALSE
 INVARIANTS PropertyHolds Strict TypeOK BufferIsLine OutputSoFar
